@@ -2,11 +2,13 @@
 package history
 
 import (
+	"bytes"
 	"encoding/json"
 	"fmt"
 	"math/rand"
 	"os"
 	"strings"
+	"sync"
 	"time"
 
 	"github.com/emitter-io/emitter/internal/message"
@@ -59,6 +61,7 @@ func replay(p *provider, idx int, walk []json.RawMessage, g *grid, rng *rand.Ran
 		deadTTL = uint32(age - 50000) // expired only recently
 	}
 	ids := map[string]int{}
+	bodies := map[string]string{} // id -> channel + payload as stored
 	var stored []message.ID
 	tr := &core.Trace{Label: label}
 	tr.Events = append(tr.Events, core.Ev(map[string]any{"e": "reset", "provider": p.name}))
@@ -80,10 +83,10 @@ func replay(p *provider, idx int, walk []json.RawMessage, g *grid, rng *rand.Ran
 		}
 		res, unknown := []int{}, 0
 		for _, m := range frame {
-			if s, ok := ids[string(m.ID)]; ok {
+			if s, ok := ids[string(m.ID)]; ok && bodies[string(m.ID)] == string(m.Channel)+"|"+string(m.Payload) {
 				res = append(res, s)
 			} else {
-				unknown++
+				unknown++ // an id that was never stored, or a stored id with another channel / payload
 			}
 		}
 		tr.Events = append(tr.Events, core.Ev(map[string]any{"e": "query", "c": c, "f": f, "from": win[0], "until": win[1], "limit": limit, "after": after, "res": res, "unknown": unknown}))
@@ -110,6 +113,7 @@ func replay(p *provider, idx int, walk []json.RawMessage, g *grid, rng *rand.Ran
 		}
 		stored = append(stored, id)
 		ids[string(id)] = len(stored)
+		bodies[string(id)] = string(m.Channel) + "|" + string(m.Payload)
 		tr.Events = append(tr.Events, core.Ev(map[string]any{"e": "store", "c": a.C, "w": a.W, "t": a.T, "live": a.Live, "big": a.Big}))
 		last := si == len(walk)-1
 		for _, c := range []string{"C1", "C2"} {
@@ -129,6 +133,77 @@ func replay(p *provider, idx int, walk []json.RawMessage, g *grid, rng *rand.Ran
 					}
 				}
 			}
+		}
+	}
+	return tr
+}
+
+// concurrentStores: several publishers store at the same time on one provider (as connection goroutines do); afterwards
+// every (contract, channel) is queried with a limit above what was stored: exactly the stored messages, each with its
+// own channel and payload (the stores are logged in completion order; with such queries their order does not matter).
+func concurrentStores(p *provider, idx int, rng *rand.Rand, label string) *core.Trace {
+	c1 := uint32(0x20000000 + idx)
+	c2 := c1 ^ hash.OfString("a") ^ hash.OfString("b")
+	contract := map[string]uint32{"C1": c1, "C2": c2}
+	base := time.Now().Unix() - 5000
+	type rec struct {
+		c    string
+		w    []string
+		t    int64
+		id   message.ID
+		body string
+	}
+	chans := [][]string{{"a"}, {"a", "b"}, {"b"}, {"a", "b", "c"}}
+	var mu sync.Mutex
+	var done []rec
+	var wg sync.WaitGroup
+	for g := 0; g < 8; g++ {
+		wg.Add(1)
+		seed := rng.Int63()
+		go func(g int) {
+			defer wg.Done()
+			r := rand.New(rand.NewSource(seed))
+			for i := 0; i < 6; i++ {
+				cn := []string{"C1", "C2"}[r.Intn(2)]
+				w := chans[r.Intn(len(chans))]
+				t := int64(1 + r.Intn(2))
+				id := message.NewID(ssid(contract[cn], w))
+				id.SetTime(base + t)
+				payload := bytes.Repeat([]byte{byte('A' + g)}, []int{8, 200, 900}[r.Intn(3)]) // (all 48 together stay below the 64 KiB reply cap)
+				payload = append(payload, []byte(fmt.Sprintf("|g%d-m%d", g, i))...)
+				m := &message.Message{ID: id, Channel: []byte(strings.Join(w, "/") + "/"), Payload: payload, TTL: 1000000}
+				if err := p.st.Store(m); err != nil {
+					core.Fatalf("%s Store: %v", p.name, err)
+				}
+				mu.Lock()
+				done = append(done, rec{cn, w, t, id, string(m.Channel) + "|" + string(payload)})
+				mu.Unlock()
+			}
+		}(g)
+	}
+	wg.Wait()
+	tr := &core.Trace{Label: label}
+	tr.Events = append(tr.Events, core.Ev(map[string]any{"e": "reset", "provider": p.name}))
+	ids, bodies := map[string]int{}, map[string]string{}
+	for i, d := range done {
+		ids[string(d.id)], bodies[string(d.id)] = i+1, d.body
+		tr.Events = append(tr.Events, core.Ev(map[string]any{"e": "store", "c": d.c, "w": d.w, "t": d.t, "live": true, "big": false}))
+	}
+	for _, cn := range []string{"C1", "C2"} {
+		for _, f := range [][]string{{"a"}, {"a", "b"}, {"b"}, {"a", "+"}, {"a", "b", "c"}} {
+			frame, err := p.st.Query(ssid(contract[cn], f), time.Unix(0, 0), time.Unix(0, 0), nil, 1000)
+			if err != nil {
+				core.Fatalf("%s Query: %v", p.name, err)
+			}
+			res, unknown := []int{}, 0
+			for _, m := range frame {
+				if s, ok := ids[string(m.ID)]; ok && bodies[string(m.ID)] == string(m.Channel)+"|"+string(m.Payload) {
+					res = append(res, s)
+				} else {
+					unknown++
+				}
+			}
+			tr.Events = append(tr.Events, core.Ev(map[string]any{"e": "query", "c": cn, "f": f, "from": 0, "until": 9, "limit": 1000, "after": 0, "res": res, "unknown": unknown}))
 		}
 	}
 	return tr
@@ -199,6 +274,19 @@ func Run(c *core.Ctx) {
 			}
 		}
 	}
+	// concurrent publishers on one provider
+	nconc := 6
+	if !c.Quick() {
+		nconc = 60
+	}
+	for i := 0; i < nconc; i++ {
+		for _, p := range provs {
+			t := concurrentStores(p, 500000+i*2+int(c.Seed)*100000, rng, fmt.Sprintf("%s-concurrent-%d", p.name, i))
+			traces = append(traces, t)
+			c.Add("evaluations", int64(len(t.Events)-1))
+		}
+	}
+	c.Add("concurrent_store_rounds", int64(nconc*len(provs)))
 	if len(traces) > 0 {
 		t := traces[rng.Intn(len(traces))]
 		var head []json.RawMessage
